@@ -47,6 +47,7 @@ type Case struct {
 	Cbn   []int       `json:"cbn"`
 	Fault *cat.Fault  `json:"fault,omitempty"`
 	NSubs int         `json:"nsubs"`
+	Hot   bool        `json:"hot"` // the source emits with a context of its own, not derived from the subscription context
 	Raw   string      `json:"-"`
 }
 
@@ -102,6 +103,7 @@ type ctlSub struct {
 	dest   ro.Observer[any]
 	subCtx context.Context
 	items  int
+	hot    bool
 }
 
 // Ctl is a cold, controllable source: every subscription registers its destination; the replayer emits on demand.
@@ -112,6 +114,7 @@ type Ctl struct {
 	Torn            int
 	SubCtxMarkers   []string
 	PanicOnSub      bool
+	Hot             bool // emit with a context of the producer's own (hot source)
 	PanicOnTeardown bool
 	OnSub           func(cs *ctlSub) // runs inside the subscription, before the teardown is returned (a source that ends synchronously)
 }
@@ -120,7 +123,7 @@ func (c *Ctl) Observable(mode string, script []Step) ro.Observable[any] {
 	fn := func(ctx context.Context, dest ro.Observer[any]) ro.Teardown {
 		c.mu.Lock()
 		c.Subs++
-		cs := &ctlSub{dest: dest, subCtx: ctx}
+		cs := &ctlSub{dest: dest, subCtx: ctx, hot: c.Hot}
 		c.subs = append(c.subs, cs)
 		c.SubCtxMarkers = cat.Markers(ctx)
 		c.mu.Unlock()
@@ -180,16 +183,22 @@ func (c *Ctl) nth(k int) *ctlSub {
 	return nil
 }
 
+var hotCtx = context.WithValue(context.Background(), rec.KeyHot, true)
+
 func emit(cs *ctlSub, n Notif) {
+	base := cs.subCtx
+	if cs.hot {
+		base = hotCtx
+	}
 	switch n.K {
 	case "N":
-		ctx := context.WithValue(cs.subCtx, rec.KeyItem, cs.items)
+		ctx := context.WithValue(base, rec.KeyItem, cs.items)
 		cs.items++
 		cs.dest.NextWithContext(ctx, toVal(n.V))
 	case "E":
-		cs.dest.ErrorWithContext(context.WithValue(cs.subCtx, rec.KeyItem, -1), cat.ErrSrc[int(n.V.(float64))])
+		cs.dest.ErrorWithContext(context.WithValue(base, rec.KeyItem, -1), cat.ErrSrc[int(n.V.(float64))])
 	case "C":
-		cs.dest.CompleteWithContext(context.WithValue(cs.subCtx, rec.KeyItem, -1))
+		cs.dest.CompleteWithContext(context.WithValue(base, rec.KeyItem, -1))
 	}
 }
 
@@ -362,6 +371,7 @@ func replay(idx int, c *Case, mode string, out *[]Mismatch) {
 		srcMode = "ctl-unsafe"
 	}
 	build := func(ctl *Ctl) ro.Observable[any] {
+		ctl.Hot = c.Hot
 		var o ro.Observable[any] = ctl.Observable(srcMode, c.Steps)
 		for _, op := range ops {
 			o = op(o)
